@@ -166,6 +166,12 @@ func walkPathK(t *testing.T, g *Graph, seed int64, path []Edge, known []knownFin
 	wdMu.Lock()
 	wdPath, wdStarted = path, time.Now()
 	wdMu.Unlock()
+	if out := os.Getenv("VERIF_OUT"); out != "" {
+		// what is being replayed right now, for the parent process should this one die
+		b, _ := json.Marshal(map[string]any{"engine": "walk", "family": os.Getenv("VERIF_FAMILY"), "prop": os.Getenv("VERIF_PROP"),
+			"seed": seed, "meta": g.Meta, "path": path})
+		_ = os.WriteFile(out+".cur", b, 0o644)
+	}
 	defer func() {
 		wdMu.Lock()
 		wdPath = nil
@@ -176,6 +182,7 @@ func walkPathK(t *testing.T, g *Graph, seed int64, path []Edge, known []knownFin
 	var exp, got any
 	steps := 0
 	synctest.Test(t, func(t *testing.T) {
+		syncWait = synctest.Wait
 		sys, err := NewSys(g.Meta, seed, path[0].SS)
 		if err != nil {
 			t.Fatalf("system: %v", err)
